@@ -103,7 +103,7 @@ def gen_known_shapes(tier):
 
     cases = shapes.known_shape_cases(_seed())
     if tier == "quick":
-        seen = set()
+        seen = {"loop-valueFrom-in-repeated-subworkflow"}  # a hang costs >= 80 s: thorough tier only
         for c in cases:  # one case per shape in quick, all variants in thorough
             if c["shape"] not in seen:
                 seen.add(c["shape"])
